@@ -265,11 +265,42 @@ pub fn enumerate(family: &str, thorough: bool, f: &mut dyn FnMut(&str, Vec<u8>))
                 f("task-interval-kind", format!("CONFIGURATION c RESOURCE r ON PLC TASK t ( INTERVAL := {} , PRIORITY := 1 ) ; PROGRAM p WITH t : Main ; END_RESOURCE END_CONFIGURATION", iv).into_bytes());
             }
         }
+        "bodies" => {
+            // every string up to length 4 (thorough 5) over a small alphabet of the characters that are special
+            // in a lexical context, placed in that context
+            let contexts: [(&str, &str, &str, &[&str]); 9] = [
+                ("single-quoted-initial-value", "FUNCTION_BLOCK F VAR s : STRING := '", "' ; END_VAR END_FUNCTION_BLOCK", &["$", "4", "A", "g", "\u{e9}", "\u{20ac}", "\u{1F600}", "'", "\"", "N"]),
+                ("double-quoted-initial-value", "FUNCTION_BLOCK F VAR s : WSTRING := \"", "\" ; END_VAR END_FUNCTION_BLOCK", &["$", "0", "4", "A", "g", "\u{e9}", "\u{20ac}", "\u{1F600}", "'", "\""]),
+                ("single-quoted-in-statement", "FUNCTION_BLOCK F VAR s : STRING ; END_VAR s := '", "' ; END_FUNCTION_BLOCK", &["$", "4", "A", "\u{e9}", "\u{1F600}", "'", "\n", "T"]),
+                ("comment", "FUNCTION_BLOCK F VAR a : INT ; END_VAR (*", "*) a := 1 ; END_FUNCTION_BLOCK", &["*", ")", "(", "\u{e9}", "\u{1F600}", "\n", "\r", "@", " "]),
+                ("duration", "FUNCTION_BLOCK F VAR t : TIME := T#", " ; END_VAR END_FUNCTION_BLOCK", &["1", "0", "9", ".", "_", "-", "d", "h", "m", "s"]),
+                ("based-integer", "FUNCTION_BLOCK F VAR x : INT := 16#", " ; END_VAR END_FUNCTION_BLOCK", &["0", "9", "F", "f", "G", "_", "#", ".", "-", "\u{e9}"]),
+                ("direct-address", "PROGRAM P VAR x AT %", " : BOOL ; END_VAR END_PROGRAM", &["I", "Q", "M", "X", "W", "*", "0", "9", ".", "_"]),
+                ("number", "FUNCTION_BLOCK F VAR x : LREAL := 1", " ; END_VAR END_FUNCTION_BLOCK", &["0", "9", ".", "E", "e", "+", "-", "_", "#"]),
+                ("date-and-time", "FUNCTION_BLOCK F VAR x : DT := DT#2021-", " ; END_VAR END_FUNCTION_BLOCK", &["0", "1", "2", "9", "-", ":", ".", "_"]),
+            ];
+            let max_len = if thorough { 5 } else { 4 };
+            for (name, pre, post, alpha) in contexts {
+                let mut level: Vec<String> = vec![String::new()];
+                for _ in 0..=max_len {
+                    for body in &level {
+                        f(name, format!("{}{}{}", pre, body, post).into_bytes());
+                    }
+                    let mut next = Vec::with_capacity(level.len() * alpha.len());
+                    for body in &level {
+                        for a in alpha {
+                            next.push(format!("{}{}", body, a));
+                        }
+                    }
+                    level = next;
+                }
+            }
+        }
         _ => panic!("unknown family {}", family),
     }
 }
 
-pub const FAMILIES: [&str; 7] = ["edit1", "edit2", "bytes", "tokens", "nesting", "size", "literals"];
+pub const FAMILIES: [&str; 8] = ["edit1", "edit2", "bytes", "tokens", "nesting", "size", "literals", "bodies"];
 
 fn decode(bytes: &[u8]) -> String {
     match std::str::from_utf8(bytes) {
@@ -516,7 +547,7 @@ fn run_slice(family: &str, thorough: bool, start: usize, end: usize, stride: usi
 
 pub fn run(ctx: &mut Ctx) {
     let thorough = ctx.tier.thorough();
-    ctx.rule = "families: edit1 (every host x every token position x {delete, duplicate, swap, replace by / insert each lexeme of the alphabet}), edit2 (every pair of alphabet lexemes inserted at positions of small hosts), bytes (every byte string of length <= 2; thorough: length 3 over a 70-byte alphabet), tokens (every token string of length <= 2, spaced and abutting; thorough: length 3), nesting (19 constructors x depth 1..12 x {valid, bad core, missing closer}), size (18 inputs of ~64 KiB), literals (the C09 space and numeric extremes in 10 other positions); distinct = inputs are distinct by construction (counted)".into();
+    ctx.rule = "families: edit1 (every host x every token position x {delete, duplicate, swap, replace by / insert each lexeme of the alphabet}), edit2 (every pair of alphabet lexemes inserted at positions of small hosts), bytes (every byte string of length <= 2; thorough: length 3 over a 70-byte alphabet), tokens (every token string of length <= 2, spaced and abutting; thorough: length 3), nesting (19 constructors x depth 1..12 x {valid, bad core, missing closer}), size (18 inputs of ~64 KiB), literals (the C09 space and numeric extremes in 10 other positions); distinct = inputs are distinct by construction (counted); bodies (every string up to length 4, thorough 5, over the characters that are special inside a single- or double-quoted string, a comment, a duration, a based integer, a direct address, a number and a date-and-time literal, in that context)".into();
     ctx.assumptions.push(format!("each input runs tokenize, parse, and if it parses analyze and render, under catch_unwind on a thread with an 8 MiB stack in a worker process; budget {} s per input; the build has overflow checks and debug assertions on", BUDGET.as_secs()));
     ctx.assumptions.push("byte strings that are not UTF-8 are decoded as Latin-1 (the file reader falls back to Windows-1252, which differs only in 0x80-0x9F, all of which the lexer treats alike)".into());
     ctx.bounds.insert("alphabet_lexemes".into(), json!(alphabet().len()));
